@@ -185,8 +185,7 @@ Inductive lbl :=
 | LTick (dt : N)                       (* the clock advances *)
 | LSpawn (c : call)                    (* a goroutine enters UpdatePeer / GetPeers / cleanupExpiredPeerEntries *)
 | LRun (tid : nat) (orc : list nat)    (* thread tid runs its next lock region; orc = oracle *)
-| LCgStart                             (* a cleanupExpiredPeerGroups pass takes s.mu; map order = gmap order permuted below *)
-| LCgOrder (order : list nat)          (* unused placeholder kept out of the step function *)
+| LCgStart (order : list nat)          (* a cleanupExpiredPeerGroups pass takes s.mu; order = map range order (positions in gmap) *)
 | LCgStep.                             (* the pass runs its next g.mu region *)
 
 Definition with_threads (s : st) (ts : list pc) : st :=
@@ -282,8 +281,7 @@ Definition cstep (s : st) (l : lbl) : option st :=
       | Some p => run_thread s tid orc p
       | None => None
       end
-  | LCgStart => None
-  | LCgOrder order =>                                               (* local.go:245-248: take s.mu; range order = oracle *)
+  | LCgStart order =>                                               (* local.go:245-248: take s.mu; range order = oracle *)
       if smu_free s then
         if is_perm order (seq 0 (length (gmap s)))
         then Some (with_smu s (Some (CgCheck (pick (0%N, 0%nat) (gmap s) order))))
@@ -301,3 +299,205 @@ Fixpoint exec (s : st) (ls : list lbl) : option st :=
   | [] => Some s
   | l :: t => match cstep s l with Some s' => exec s' t | None => None end
   end.
+
+(* ---------- sequential layer: one observed history compiled into a schedule ---------- *)
+
+(* a state together with the schedule (newest label first) that produced it *)
+Definition tst := (st * list lbl)%type.
+
+Definition tstep (x : tst) (l : lbl) : option tst :=
+  match cstep (fst x) l with
+  | Some s => Some (s, l :: snd x)
+  | None => None
+  end.
+
+Definition obind {A B} (o : option A) (f : A -> option B) : option B :=
+  match o with Some a => f a | None => None end.
+
+(* an announcement between the scan and the remove region of one group (entry cleanup) *)
+Record mid := mkmid { m_dt1 : N; m_peer : peer; m_dt2 : N }.
+
+Inductive op :=
+| OTick (dt : N)
+| OAnn (h : N) (p : peer)
+| OGet (h : N) (n : Z) (res : list peer)     (* res = what the implementation returned *)
+| OCleanE (evs : list (N * option mid))     (* groups with a non-empty list in the order the pass scanned them *)
+| OCleanG.
+
+Definition thread_at (s : st) (tid : nat) : pc := nth tid (threads s) (PDone []).
+
+(* UpdatePeer run to completion without interference: lookup, update *)
+Definition seq_ann (x : tst) (h : N) (p : peer) : option tst :=
+  let tid := length (threads (fst x)) in
+  obind (tstep x (LSpawn (CAnn h p))) (fun x1 =>
+  obind (tstep x1 (LRun tid [])) (fun x2 =>
+  obind (tstep x2 (LRun tid [])) (fun x3 =>
+  match thread_at (fst x3) tid with PDone _ => Some x3 | _ => None end))).
+
+(* position in peerList of the entry that carries PeerID id *)
+Fixpoint find_idx (G : group) (id : N) (l : list nat) (i : nat) : option nat :=
+  match l with
+  | [] => None
+  | p :: t => if N.eqb (p_id (e_peer (entry_at G p))) id then Some i else find_idx G id t (S i)
+  end.
+
+Fixpoint sequence {A} (l : list (option A)) : option (list A) :=
+  match l with
+  | [] => Some []
+  | None :: _ => None
+  | Some a :: t => match sequence t with Some r => Some (a :: r) | None => None end
+  end.
+
+(* GetPeers run to completion; the rand.Perm choice is recovered from the returned ids *)
+Definition seq_get (x : tst) (h : N) (n : Z) (res : list peer) : option tst :=
+  let tid := length (threads (fst x)) in
+  obind (tstep x (LSpawn (CGet h n))) (fun x1 =>
+  obind (tstep x1 (LRun tid [])) (fun x2 =>
+  match thread_at (fst x2) tid with
+  | PDone r => if peers_eqb r res then Some x2 else None
+  | PRdRead _ _ g _ =>
+      let G := group_at (fst x2) g in
+      obind (sequence (map (fun r => find_idx G (p_id r) (g_list G) 0) res)) (fun idxs =>
+      obind (tstep x2 (LRun tid idxs)) (fun x3 =>
+      match thread_at (fst x3) tid with
+      | PDone r => if peers_eqb r res then Some x3 else None
+      | _ => None
+      end))
+  | _ => None
+  end)).
+
+Definition apply_mid (x : tst) (h : N) (m : option mid) : option tst :=
+  match m with
+  | None => Some x
+  | Some m =>
+      obind (tstep x (LTick (m_dt1 m))) (fun x1 =>
+      obind (seq_ann x1 h (m_peer m)) (fun x2 =>
+      tstep x2 (LTick (m_dt2 m))))
+  end.
+
+(* scan g; the optional mid announcement (to the torrent the driver saw being scanned);
+   remove from g (when the scan found something) *)
+Fixpoint seq_ce_loop (fuel : nat) (x : tst) (tid : nat) (evs : list (N * option mid)) : option tst :=
+  match fuel with
+  | O => None
+  | S f =>
+      match thread_at (fst x) tid with
+      | PCeScan [] => match evs with [] => tstep x (LRun tid []) | _ => None end
+      | PCeScan (_ :: _) =>
+          obind (tstep x (LRun tid [])) (fun x1 =>
+          obind (match evs with [] => Some x1 | e :: _ => apply_mid x1 (fst e) (snd e) end) (fun x2 =>
+          match thread_at (fst x2) tid with
+          | PCeRemove _ _ _ => obind (tstep x2 (LRun tid [])) (fun x3 => seq_ce_loop f x3 tid (tl evs))
+          | _ => seq_ce_loop f x2 tid (tl evs)
+          end))
+      | _ => None
+      end
+  end.
+
+Definition seq_cleane (x : tst) (evs : list (N * option mid)) : option tst :=
+  let s := fst x in
+  let tid := length (threads s) in
+  obind (sequence (map (fun e => assoc (fst e) (gmap s)) evs)) (fun first =>
+  let rest := filter (fun g => negb (memn g first)) (map snd (gmap s)) in
+  obind (tstep x (LSpawn CCleanE)) (fun x1 =>
+  obind (tstep x1 (LRun tid (first ++ rest))) (fun x2 =>
+  obind (seq_ce_loop (S (length (gmap s))) x2 tid evs) (fun x3 =>
+  match thread_at (fst x3) tid with PDone _ => Some x3 | _ => None end)))).
+
+Fixpoint seq_cg_loop (fuel : nat) (x : tst) : option tst :=
+  match fuel with
+  | O => None
+  | S f =>
+      match smu (fst x) with
+      | None => Some x
+      | Some _ => obind (tstep x LCgStep) (fun x1 => seq_cg_loop f x1)
+      end
+  end.
+
+Definition seq_cleang (x : tst) : option tst :=
+  let k := length (gmap (fst x)) in
+  obind (tstep x (LCgStart (seq 0 k))) (fun x1 => seq_cg_loop (2 * k + 2) x1).
+
+Definition seq_step (x : tst) (o : op) : option tst :=
+  match o with
+  | OTick dt => tstep x (LTick dt)
+  | OAnn h p => seq_ann x h p
+  | OGet h n res => seq_get x h n res
+  | OCleanE evs => seq_cleane x evs
+  | OCleanG => seq_cleang x
+  end.
+
+Fixpoint seq_run (x : tst) (ops : list op) : option tst :=
+  match ops with
+  | [] => Some x
+  | o :: t => obind (seq_step x o) (fun x1 => seq_run x1 t)
+  end.
+
+(* None = the implementation's observations are not a behaviour of the model *)
+Definition run (t : N) (ops : list op) : option tst := seq_run (init t, []) ops.
+
+(* ---------- the property evaluated on one observed history (no reference to the model) ---------- *)
+
+Fixpoint last_ann (lg : list ann) (h id : N) : option ann :=
+  match lg with
+  | [] => None
+  | a :: t => if N.eqb (a_hash a) h && N.eqb (p_id (a_peer a)) id then Some a else last_ann t h id
+  end.
+
+Fixpoint nodupN (l : list N) : bool :=
+  match l with
+  | [] => true
+  | x :: t => negb (existsb (N.eqb x) t) && nodupN t
+  end.
+
+(* an announcement is fresh while less than TTL has passed since it was made *)
+Definition fresh (t nw : N) (a : ann) : bool := N.ltb nw (a_time a + t).
+
+(* every fresh announcement of lg for h that is the latest of its peer appears in res *)
+Fixpoint fresh_covered (t nw h : N) (full lg : list ann) (res : list peer) : bool :=
+  match lg with
+  | [] => true
+  | a :: rest =>
+      (if N.eqb (a_hash a) h && fresh t nw a
+       then match last_ann full h (p_id (a_peer a)) with
+            | Some b => negb (fresh t nw b) || existsb (peer_eqb (a_peer b)) res
+            | None => true
+            end
+       else true) && fresh_covered t nw h full rest res
+  end.
+
+Definition get_ok (t nw : N) (lg : list ann) (h : N) (n : Z) (res : list peer) : bool :=
+  Z.leb (Z.of_nat (length res)) (Z.max n 0)                         (* at most n *)
+  && nodupN (map p_id res)                                          (* distinct *)
+  && forallb (fun r => match last_ann lg h (p_id r) with            (* most recent announcement *)
+                       | Some a => peer_eqb (a_peer a) r
+                       | None => false
+                       end) res
+  && (if Z.ltb (Z.of_nat (length res)) n                            (* the whole list was returned: *)
+      then fresh_covered t nw h lg lg res else true).               (* nothing fresh is missing *)
+
+Definition spec_mid (nl : N * list ann) (e : N * option mid) : N * list ann :=
+  match snd e with
+  | None => nl
+  | Some m => let t1 := (fst nl + m_dt1 m)%N in
+              ((t1 + m_dt2 m)%N, mkann (fst e) (m_peer m) t1 :: snd nl)
+  end.
+
+Fixpoint check_from (t : N) (nl : N * list ann) (ops : list op) : bool :=
+  match ops with
+  | [] => true
+  | o :: rest =>
+      match o with
+      | OTick dt => check_from t ((fst nl + dt)%N, snd nl) rest
+      | OAnn h p => check_from t (fst nl, mkann h p (fst nl) :: snd nl) rest
+      | OGet h n res => get_ok t (fst nl) (snd nl) h n res && check_from t nl rest
+      | OCleanE evs => check_from t (fold_left spec_mid evs nl) rest
+      | OCleanG => check_from t nl rest
+      end
+  end.
+
+Definition C27_check (t : N) (ops : list op) : bool := check_from t (0%N, []) ops.
+
+(* the observations the model itself would produce for a history: the history with every
+   Get result replaced by ... is not needed: [run] succeeds only when the observed results
+   are results of the model, so soundness is stated as: run t ops <> None -> C27_check. *)
